@@ -79,7 +79,7 @@ Fixpoint ops_in_domain (ops : list op) (p : npipe) : bool :=
   end.
 
 Definition run_orig (p : pipeline) (c : rcall) : result str * list call :=
-  let r := Pipe.run body pick p (c_o0 c) (c_kw0 c) false in
+  let r := Pipe.run_checked body pick p (c_o0 c) (c_kw0 c) false in
   (match fst r with Ok (Value v) => Ok v | Ok (Full _) => Err OtherError | Err e => Err e end, snd r).
 
 (* ---- aliasing probes on the heap model ---- *)
@@ -95,7 +95,7 @@ Definition sx_state (h : Alias.heap) (lp : Alias.loc) (call : str * alist) : opt
   match Alias.pobs h lp, Alias.reify h lp with
   | Some vs, Some p =>
       Some (SL [SL (map sx_view (sort (fun a b => strs_ltb (outs (nf (Alias.v_node a))) (outs (nf (Alias.v_node b)))) vs));
-                sx_of_result SS (fst (nrun body pick p (fst call) (dotted (snd call))))])
+                sx_of_result SS (fst (nrun_checked body pick p (fst call) (dotted (snd call))))])
   | _, _ => None
   end.
 Definition hop_of (rw : aop) (p : Alias.loc) (q : Alias.loc) : Alias.hop :=
@@ -164,7 +164,7 @@ Definition run (c : case) : sx :=
         | Some (e, i) => SL [SL [SErr e; SN i]; SL (map sx_struct trace); SL []; SL []]
         | None =>
             SL [sx_ok; SL (map sx_struct trace);
-                SL (map (fun c => SL (sx_res (run_orig p c) ++ sx_res (nrun body pick p' (c_o1 c) (c_kw1 c)))) calls);
+                SL (map (fun c => SL (sx_res (run_orig p c) ++ sx_res (nrun_checked body pick p' (c_o1 c) (c_kw1 c)))) calls);
                 match mapin with
                 | None => SL []
                 | Some (in0, in1) => SL [map_all (lift p) in0; map_all p' in1]
